@@ -216,7 +216,7 @@ impl Prop for C20 {
     }
 
     fn strategy(&self, _ctx: &Ctx) -> BoxedStrategy<ShowCase> {
-        (walk_strategy(false), prop::bool::weighted(0.03)).prop_map(|(walk, via_uci)| ShowCase { walk, via_uci }).boxed()
+        (prop_oneof![4 => walk_strategy(false), 1 => walk_strategy(true)], prop::bool::weighted(0.03)).prop_map(|(walk, via_uci)| ShowCase { walk, via_uci }).boxed()
     }
 
     fn check(&self, _ctx: &Ctx, case: &ShowCase, ev: &mut Ev) -> Result<(), Fail> {
